@@ -248,6 +248,9 @@ def _project_configs():
     # single cells with the solver contract discharged by the explicit exact solve (adjugate) instead of a certificate
     out.append(dict(template="RegionTriangle", values="vector", dV="user", average=True, cells=1, solve="explicit"))
     out.append(dict(template="RegionQuad", values="scalar", dV="region", average=True, cells=1, solve="explicit"))
+    # solver=: a user callable x = solver(A, b) handed to project (same obligations; which route the system takes is recorded)
+    out.append(dict(template="RegionQuad", values="vector", dV="user", average=True, cells=2, solver="user"))
+    out.append(dict(template="RegionTriangle", values="scalar", dV="region", average=False, cells=1, solve="explicit", solver="user"))
     return out
 
 
@@ -289,8 +292,20 @@ def project_contract(vk, cfg):
     solver = CertifiedSolver(vk, candidate=None if explicit else target.reshape(-1, size), explicit_max=4 if explicit else 0)
     vals0 = vk.snapshot(vals)
     call_region = region
+    user_calls = []
+    kw_solver = {}
+    if cfg.get("solver") == "user":
+
+        def user_solver(A_, b_):
+            "the caller's sparse solver, documented signature x = solver(A, b) (same contract as the default one)"
+            user_calls.append(1)
+            return solver(A_, b_)
+
+        kw_solver["solver"] = user_solver
     with _bound_project(vk, solver):
-        out = fem.project(vals, call_region, average=avg, dV=dV)
+        out = fem.project(vals, call_region, average=avg, dV=dV, **kw_solver)
+    if cfg.get("solver") == "user" and vk.sym:
+        vk.note("C19 observation (recorded, NOT an obligation: no clause of the property names the solver route): project(values, region, solver=user_solver) " + ("hands the system to the user's solver" if user_calls else "IGNORES the `solver` argument -- the user's callable is never called, the system is solved by the module-level scipy.sparse.linalg.spsolve (docstring: 'A function for a sparse solver with signature x=solver(A, b)')") + f"; calls of the user's solver: {len(user_calls)}")
     vk.frame_unchanged("values", vals, vals0)
     cells_w = cells if avg else np.arange(ncells * npc).reshape(ncells, npc)
     npts = mesh.npoints if avg else ncells * npc
@@ -1082,13 +1097,14 @@ class _EigenBackends:
             oracle.assume(co(x), ">")
         return a, w, n
 
-    def eigh(s, a):
+    def eigh(s, a, UPLO="L"):
+        # (math.eigh hands its UPLO on to the back end; the arguments here are symmetric tensors: either triangle)
         a, w, n = s._w(a, "h")
         V = ring.symarray(f"vec{n}_", a.shape)
         s.calls.append(("eigh", a, w, V))
         return w, V
 
-    def eigvalsh(s, a):
+    def eigvalsh(s, a, UPLO="L"):
         a, w, n = s._w(a, "v")
         s.calls.append(("eigvalsh", a, w, None))
         return w
@@ -1287,6 +1303,152 @@ def view_cell_data(vk, cfg):
         vk.ensures_eq(f"Equivalent of {label}: mean over q of sqrt(3/2 dev:dev)", _rows(cd[f"Equivalent of {label}"], nc), mean_q(vm[None]))
     if vk.sym:
         vk.canary("Deformation Gradient==0", _rows(cd["Deformation Gradient"], nc), 0 * mean_q(F))
+
+
+# ---- options of the view classes: project=, cell_type=, point_data=, cell_data= --------------------------------------
+@contract("C19", "view_options", configs=[dict(view="ViewField", option="project"), dict(view="ViewSolid", option="project"), dict(view="ViewField", option="cell_type"), dict(view="ViewSolid", option="point_data+cell_data+cell_type"), dict(view="ViewSolid", option="project-not-callable")])
+def view_options(vk, cfg):
+    """ViewField / ViewSolid options.  project= ("callable to project internal cell-data at quadrature-points to
+    mesh-points"): the callable is handed, with the field's region, the quadrature-point values of exactly the named
+    quantities (Deformation Gradient, Logarithmic Strain in Voigt storage, its principal values; <type> Stress in
+    Voigt storage, its principal values, its von Mises equivalent -- of the field given to the view), what it returns
+    becomes the POINT data of that name, and no default cell-data item is left; anything but a callable or None raises
+    TypeError.  cell_type=: handed on to the plotting back end's grid.  point_data= / cell_data= of ViewSolid
+    ("additional ... dict"; "optional items of given point- and cell-data overwrite the default items"): the given arrays
+    reach the back end under their labels, a given item named like a default one replaces it, the other defaults stay"""
+    from felupe.view._field import ViewField
+    from felupe.view._solid import ViewSolid
+
+    vk.real(ViewField.__init__)
+    vk.real(ViewSolid.__init__)
+    opt = cfg["option"]
+    cells = np.array([[0, 1, 2, 3], [1, 2, 3, 4]])
+    nq, nc = 2, len(cells)
+    region = OpaqueTables(vk, cells, 3, nq, cell_type="tetra")
+    npts = region.mesh.npoints
+    u = vk.reals("u", (npts, 3), near=0.0, spread=0.08)
+    F = _F_spec(vk, "3d", region, region.mesh, cells, u)
+    _require_detF(vk, F)
+    field = fem.FieldContainer([fem.Field(region, dim=3, values=u.copy())])
+    C = ref_einsum("kiqc,kjqc->ijqc", F, F)
+    seen_cell_type = []
+    if vk.sym:
+
+        def as_pyvista(cell_type=None):
+            seen_cell_type.append(cell_type)
+            return _DatasetStub()
+
+        region.mesh.as_pyvista = as_pyvista
+    solid = None
+    if cfg["view"] == "ViewSolid":
+        umat = StubMaterial(vk, dim=3, hyperelastic=False)
+        u0 = vk.reals("u0", (npts, 3), near=0.0, spread=0.08)
+        _require_detF(vk, _F_spec(vk, "3d", region, region.mesh, cells, u0))
+        solid = fem.SolidBody(umat, fem.FieldContainer([fem.Field(region, dim=3, values=u0.copy())]))  # another state
+    calls = []
+
+    def proj(values, reg):
+        "the caller's projection (stub): remembers what it is handed, returns one row per point tagged by the call"
+        values = np.asarray(values)
+        ncomp = int(np.prod(values.shape[:-2])) if values.ndim > 2 else 1
+        out = np.zeros((npts, ncomp), dtype=object if vk.sym else float)
+        out[...] = (LP.const(len(calls) + 1) if vk.sym else float(len(calls) + 1))
+        out[:, 0] = out[:, 0] + np.arange(npts)
+        calls.append((values, reg, out))
+        return out
+
+    kw = {}
+    stress_type = "Kirchhoff"
+    if opt == "project":
+        kw["project"] = proj
+    elif opt == "project-not-callable":
+        kw["project"] = "project"
+    elif opt == "cell_type":
+        kw["cell_type"] = 10  # pyvista.CellType.TETRA, the VTK id of the mesh's own cell type, spelled out
+    else:
+        given_p = {"Temperature": vk.reals("T", (npts,), near=20.0), "Displacement": vk.reals("ugiven", (npts, 3), near=0.5)}
+        given_c = {"Density": vk.reals("rho", (nc,), near=1.0), "Deformation Gradient": vk.reals("Fgiven", (nc, 9), near=0.3), f"{stress_type} Stress": vk.reals("Sgiven", (nc, 6), near=0.7)}
+        kw.update(point_data=dict(given_p), cell_data=dict(given_c), cell_type=10)
+    raised = None
+    with _EigenBackends(vk) if vk.sym else _nullcontext() as eb:
+        with warnings.catch_warnings():
+            warnings.simplefilter("ignore")
+            try:
+                view = ViewSolid(field, solid=solid, stress_type=stress_type, **kw) if solid is not None else ViewField(field, **kw)
+            except TypeError as e:
+                if opt != "project-not-callable":
+                    raise
+                raised = str(e)
+    if opt == "project-not-callable":
+        vk.ensures_true("project= neither callable nor None: TypeError", raised is not None, repr(raised), backend="exec")
+        return
+    pd, cd = view.mesh.point_data, view.mesh.cell_data
+    rows = lambda a, n: _rows(np.asarray(a, dtype=object if vk.sym else float), n)  # noqa: E731
+    if "cell_type" in kw:
+        got = seen_cell_type if vk.sym else sorted(set(int(t) for t in view.mesh.celltypes))
+        vk.ensures_true("cell_type=: the back end's grid is built with the given cell type", got == [10], str(got), backend="exec")
+    if opt == "cell_type":
+        # everything else as without the option
+        vk.ensures_eq("cell_type=/Deformation Gradient: row-major mean over q of F", rows(cd["Deformation Gradient"], nc), ref_einsum("kqc->ck", F.reshape((-1,) + F.shape[-2:])) / nq)
+        vk.ensures_eq("cell_type=/Displacement", rows(pd["Displacement"], npts), u)
+        if vk.sym:
+            vk.canary("cell_type=/Deformation Gradient==0", rows(cd["Deformation Gradient"], nc), 0 * rows(cd["Deformation Gradient"], nc))
+        return
+    P = umat._map(F, "P") if solid is not None else None
+    S = ref_einsum("ikqc,jkqc->ijqc", P, F) if solid is not None else None  # Kirchhoff stress of the VIEWED field
+    label = f"{stress_type} Stress"
+    if opt == "project":
+        order = ([label, f"Principal Values of {label}", f"Equivalent of {label}"] if solid is not None else []) + ["Deformation Gradient", "Logarithmic Strain", "Principal Values of Logarithmic Strain"]
+        vk.ensures_true("project=: called once per named quantity", len(calls) == len(order), f"{len(calls)} calls", backend="exec")
+        if len(calls) != len(order):
+            return
+        reg_ok = [c[1] is (solid.field.region if (solid is not None and k < 3) else field.region) for k, c in enumerate(calls)]
+        vk.ensures_true("project=: called with the region of the field", all(reg_ok), str(reg_ok), backend="exec")
+        vk.ensures_true("project=: no default cell-data item is left, the named quantities are point data", sorted(cd.keys()) == [] and sorted(pd.keys()) == sorted(order + ["Displacement"]), f"cell data {sorted(cd.keys())}, point data {sorted(pd.keys())}", backend="exec")
+        for k, name in enumerate(order):
+            vk.ensures_eq(f"project=/point data '{name}' is what the callable returned for it", rows(pd[name], npts), calls[k][2])
+        handed = {name: calls[k][0] for k, name in enumerate(order)}
+        vk.ensures_eq("project=/Deformation Gradient: the callable is handed F at the quadrature points", handed["Deformation Gradient"], F)
+        vk.ensures_eq("project=/Displacement", rows(pd["Displacement"], npts), u)
+        if solid is not None:
+            vk.ensures_eq(f"project=/{label}: the callable is handed the stress of the viewed field (Voigt storage)", handed[label], np.array([S[i, j] for i, j in VOIGT]))
+            dev = S.copy()
+            tr = (S[0, 0] + S[1, 1] + S[2, 2]) / 3
+            for i in range(3):
+                dev[i, i] = dev[i, i] - tr
+            vm = symnp._sqrt(np.asarray(ref_einsum("ijqc,ijqc->qc", dev, dev) * 3 / 2))
+            vk.ensures_eq(f"project=/Equivalent of {label}: the callable is handed sqrt(3/2 dev:dev)", handed[f"Equivalent of {label}"], vm)
+        if vk.sym:
+            byarg = {}
+            for kindc, a, w, V in eb.calls:
+                byarg.setdefault(kindc, []).append((a, w, V))
+            (a, w, V), = byarg["eigh"]
+            vk.ensures_eq("project=/Logarithmic Strain/decomposed tensor is C of the viewed field", a, _batch_first(C))
+            vk.ensures_eq("project=/Logarithmic Strain: the callable is handed the strain (Voigt storage)", handed["Logarithmic Strain"], _strain_from_backend(0, w, V, True, True))
+            ev = byarg["eigvalsh"]
+            a, w, V = ev[-1]
+            vk.ensures_eq("project=/Principal Values of Logarithmic Strain/decomposed tensor is C", a, _batch_first(C, "eigvalsh"))
+            vk.ensures_eq("project=/Principal Values of Logarithmic Strain: the callable is handed them", handed["Principal Values of Logarithmic Strain"], _strain_from_backend(0, w, V, False, False, "eigvalsh"))
+            if solid is not None:
+                a, w, V = ev[0]
+                vk.ensures_eq(f"project=/Principal Values of {label}/decomposed tensor is the stress", a, _batch_first(S, "eigvalsh"))
+                vk.ensures_eq(f"project=/Principal Values of {label}: the callable is handed them", handed[f"Principal Values of {label}"], _lam(w, "eigvalsh"))
+            vk.canary("project=/the callable is handed the cell means", np.asarray(handed["Deformation Gradient"])[..., 0, :], np.asarray(F).mean(-2) + 1)
+        return
+    # point_data= / cell_data= of ViewSolid
+    for k, v in given_p.items():
+        vk.ensures_eq(f"point_data=/'{k}' reaches the back end as given" + (" (replaces the default item)" if k == "Displacement" else ""), rows(pd[k], npts), rows(v, npts))
+    for k, v in given_c.items():
+        vk.ensures_eq(f"cell_data=/'{k}' reaches the back end as given" + ("" if k == "Density" else " (replaces the default item)"), rows(cd[k], nc), rows(v, nc))
+    vk.ensures_true("point_data= / cell_data=: the other default items stay", sorted(pd.keys()) == sorted(given_p) and sorted(cd.keys()) == sorted(set(given_c) | {"Logarithmic Strain", "Principal Values of Logarithmic Strain", f"Principal Values of {label}", f"Equivalent of {label}"}), f"point data {sorted(pd.keys())}, cell data {sorted(cd.keys())}", backend="exec")
+    dev = S.copy()
+    tr = (S[0, 0] + S[1, 1] + S[2, 2]) / 3
+    for i in range(3):
+        dev[i, i] = dev[i, i] - tr
+    vm = symnp._sqrt(np.asarray(ref_einsum("ijqc,ijqc->qc", dev, dev) * 3 / 2))
+    vk.ensures_eq(f"cell_data=/default item 'Equivalent of {label}' unchanged: mean over q of sqrt(3/2 dev:dev)", rows(cd[f"Equivalent of {label}"], nc), ref_einsum("kqc->ck", vm[None]) / nq)
+    if vk.sym:
+        vk.canary("cell_data=/the given 'Deformation Gradient' is overwritten by the default item", rows(cd["Deformation Gradient"], nc), ref_einsum("kqc->ck", F.reshape((-1,) + F.shape[-2:])) / nq)
 
 
 # ---- tools.save: the Cauchy stress point data (the arrays handed to meshio otherwise: C20) --------------------------
